@@ -35,22 +35,22 @@ type c26Deleg struct {
 }
 
 type c26Cfg struct {
-	height              int64
-	ncust, rscal, rd    bool
-	perChain            bool
-	dao, prop           int64
-	mult, chainMult     int64
-	chain               string
-	floor, bins, expN   int64
-	wmN                 int64
-	feeDefault          int64 // auth FeeMultipliers.Default
-	claimMul, proofMul  int64 // 0 = no specific multiplier
-	stake               int64
-	outputKind          int // 0 nil, 1 other account, 2 = operator itself
-	delegs              []c26Deleg
-	proposerKind        int // 0 = the servicer, 1 = second validator (custodial, no delegators), 2 = not a validator
-	extraFees           int64
-	relays              []int64
+	height             int64
+	ncust, rscal, rd   bool
+	perChain           bool
+	dao, prop          int64
+	mult, chainMult    int64
+	chain              string
+	floor, bins, expN  int64
+	wmN                int64
+	feeDefault         int64 // auth FeeMultipliers.Default
+	claimMul, proofMul int64 // 0 = no specific multiplier
+	stake              int64
+	outputKind         int // 0 nil, 1 other account, 2 = operator itself
+	delegs             []c26Deleg
+	proposerKind       int // 0 = the servicer, 1 = second validator (custodial, no delegators), 2 = not a validator
+	extraFees          int64
+	relays             []int64
 }
 
 func (p c26Cfg) features() map[string]int64 {
@@ -365,7 +365,7 @@ func TestC26(t *testing.T) {
 			"allocation split (fees of a reward, DAO cut of a block reward) that truncates",
 		map[string]float64{"delegators>=2": 0.25, "share-total=100": 0.08, "case-variant-duplicate": 0.04, "delegator=output": 0.02,
 			"delegator=operator": 0.03, "node-part-below-reward-cost": 0.03, "block-reward-paid": 0.4, "block-reward-with-delegators": 0.1,
-			"alloc-0/0": 0.02, "rscal-on": 0.3, "rscal-off": 0.3, "reward-delegators-off": 0.15, "ncust-off": 0.08, "per-chain-multiplier-used": 0.1,
+			"alloc-0/0": 0.02, "block-reward-0/0-with-fees": 0.01, "rscal-on": 0.3, "rscal-off": 0.3, "reward-delegators-off": 0.15, "ncust-off": 0.08, "per-chain-multiplier-used": 0.1,
 			"fees-truncated": 0.3, "delegator-share-truncated": 0.15},
 		func(rt *rapid.T, c *harness.Case) {
 			p := c26DrawCfg(rt)
@@ -660,6 +660,7 @@ func c26Case(rt *rapid.T, c *harness.Case, p c26Cfg) {
 	if panicked != nil {
 		if fees.Sign() > 0 && p.dao == 0 && p.prop == 0 {
 			// valid parameters (Params.Validate accepts 0/0) and collected fees, yet the split cannot be computed at all
+			// (was a genuine defect: division by zero in splitFeesCollected, fixed in /repo 9e2ef31)
 			c.Label("block-reward-panics-on-0/0")
 			c.Violation("C26/blockReward/panics-when-both-allocations-are-zero", "%s: BeginBlocker panicked: %v", what, panicked)
 			return
@@ -673,7 +674,7 @@ func c26Case(rt *rapid.T, c *harness.Case, p c26Cfg) {
 	exp := map[string]*big.Int{}
 	if fees.Sign() > 0 {
 		daoCut := new(big.Int).Sub(after.get(r.dao), before.get(r.dao))
-		if p.dao+p.prop > 0 { // (0/0 with fees: no documented policy; only conservation is checked below)
+		if p.dao+p.prop > 0 { // (0/0 with fees: the DAO gets nothing, the proposer side everything; checked below)
 			ideal := floorMulDiv(fees, p.dao, p.dao+p.prop)
 			lo := new(big.Int).Sub(ideal, b64(1))
 			// the implementation rounds dao/(dao+proposer) to 18 decimals first: the cut may be one below the exact floor
@@ -684,6 +685,12 @@ func c26Case(rt *rapid.T, c *harness.Case, p c26Cfg) {
 				c.Label("dao-cut-truncated")
 				c.NonTrivial()
 			}
+		}
+		if p.dao+p.prop == 0 {
+			c.Label("block-reward-0/0-with-fees")
+		}
+		if p.dao+p.prop == 0 && daoCut.Sign() != 0 {
+			c.Violation("C26/blockReward/dao-cut-nonzero-with-zero-allocations", "%s: DAO received %s although its allocation is 0", what, daoCut)
 		}
 		if daoCut.Sign() < 0 || daoCut.Cmp(fees) > 0 {
 			c.Violation("C26/blockReward/dao-cut-out-of-range", "%s: DAO balance changed by %s", what, daoCut)
